@@ -22,10 +22,10 @@ RULE = ('cases: every non-wrapping grid shape with extents 0..N per axis (plus L
         'Non-trivial query: the ball is clipped by the grid on at least one side AND contains >= 2 cells; distinct by (shape, centre, '
         'radius, kind).')
 ASSUMPTIONS = ['exhaustive only for extents <= N', 'radius >= 0, centre inside the grid, wrap_env=False (as the property states)']
-FLOORS = {'quick': {'queries': 60000, 'moore': 30000, 'neumann': 30000, 'center_as_id': 15000, 'center_as_tuple': 15000,
-                    'center_as_position': 15000, 'center_fractional': 15000, 'generic_entry': 30000, 'clipped_queries': 10000,
-                    'shapes': 60, 'non_cubic_shapes': 30, 'reach:Environments.DiscreteWorld.get_moore_neighbours': 30000,
-                    'reach:Environments.DiscreteWorld.get_neumann_neighbours': 30000, 'reach:Environments.DiscreteWorld.get_neighbours': 30000},
+FLOORS = {'quick': {'queries': 56000, 'moore': 28000, 'neumann': 28000, 'center_as_id': 14000, 'center_as_tuple': 14000,
+                    'center_as_position': 14000, 'center_fractional': 14000, 'generic_entry': 28000, 'clipped_queries': 10000,
+                    'shapes': 36, 'non_cubic_shapes': 30, 'reach:Environments.DiscreteWorld.get_moore_neighbours': 28000,
+                    'reach:Environments.DiscreteWorld.get_neumann_neighbours': 28000, 'reach:Environments.DiscreteWorld.get_neighbours': 28000},
           'thorough': {'queries': 1000000, 'shapes': 200}}
 EXHAUSTIVE = {'quick': 'all shapes with extents 0..3, all centres, radii 0..max extent+1, all 64 query variants',
               'thorough': 'all shapes with extents 0..5, all centres, radii 0..max extent+1, all 64 query variants'}
